@@ -2,6 +2,7 @@ package main
 
 import (
 	"fmt"
+	"go/types"
 	"strings"
 
 	"golang.org/x/tools/go/ssa"
@@ -142,13 +143,20 @@ func ruleC08Finish(cx *Ctx) {
 		}
 		var sites []fsite
 		finishP, mapP := ssa.Value(bparam(fn, 4)), ssa.Value(bparam(fn, 2))
+		// the callback may also be held by the group (a field set when the group is built) instead of being passed in
+		isFinish := func(v ssa.Value) bool {
+			if rootOf(v) == finishP {
+				return true
+			}
+			return finishP == ssa.Value(noParam) && isFuncOfCall(v) && fieldOf(v) != nil && stripLoad(v) != v
+		}
 		allInstrs(cl, func(in ssa.Instruction) {
 			cc := callCommon(in)
 			if cc == nil || cc.IsInvoke() {
 				return
 			}
 			if cc.StaticCallee() == nil {
-				if rootOf(cc.Value) == finishP {
+				if isFinish(cc.Value) {
 					sites = append(sites, fsite{in, cl, mapP, nil})
 				}
 				return
@@ -165,6 +173,20 @@ func ruleC08Finish(cx *Ctx) {
 				if rootOf(a) == mapP {
 					mi = i
 				}
+			}
+			if fi < 0 && finishP == ssa.Value(noParam) {
+				// a helper that calls the group's own callback field (finishCall / finishBulkCalls)
+				var mr ssa.Value
+				if mi >= 0 && mi < len(h.Params) {
+					mr = h.Params[mi]
+				}
+				allInstrs(h, func(x ssa.Instruction) {
+					hc := callCommon(x)
+					if hc != nil && !hc.IsInvoke() && hc.StaticCallee() == nil && isFinish(hc.Value) {
+						sites = append(sites, fsite{x, h, mr, []ssa.Instruction{in}})
+					}
+				})
+				return
 			}
 			if fi < 0 || fi >= len(h.Params) {
 				return
@@ -320,6 +342,12 @@ func ruleC10Finisher(cx *Ctx) {
 			if isCallTo(in, doCall) || isCallTo(in, doBulk) {
 				n++
 				a := callArgs(in)
+				if len(a) == 0 || !isFuncOfCall(a[len(a)-1]) {
+					// the dispatch no longer takes the callback: the group holds it in a field set when the group is built
+					t := fieldFinisher(cx, calleeOf(in))
+					cx.R.Check(t != nil && t == origin(adc), rule, funcName(fn), fmt.Sprintf("finish callback #%d", n), cx.P.where(in), "the finish callback of this dispatch is cache.afterDeleteCall")
+					return
+				}
 				t := finisherTarget(a[len(a)-1])
 				cx.R.Check(t != nil && t == origin(adc), rule, funcName(fn), fmt.Sprintf("finish callback #%d", n), cx.P.where(in), "the finish callback of this dispatch is cache.afterDeleteCall")
 				return
@@ -410,4 +438,96 @@ func ruleC10Inv(cx *Ctx) {
 		}
 		a.flush()
 	}
+}
+
+// isFuncOfCall: v has type func(*call) - the shape of the finish callback.
+func isFuncOfCall(v ssa.Value) bool {
+	sig, ok := v.Type().Underlying().(*types.Signature)
+	if !ok || sig.Params().Len() != 1 || sig.Results().Len() != 0 {
+		return false
+	}
+	return namedTypeName(sig.Params().At(0).Type()) == "call"
+}
+
+// fieldFinisher: the dispatch function d calls its finish callback through a field of the group; every store to that
+// field in the module resolves to the same function, which is returned.
+func fieldFinisher(cx *Ctx, d *ssa.Function) *ssa.Function {
+	if d == nil {
+		return nil
+	}
+	var fld *types.Var
+	seen := map[*ssa.Function]bool{}
+	var scan func(f *ssa.Function, depth int)
+	scan = func(f *ssa.Function, depth int) {
+		f = origin(f)
+		if seen[f] || depth > 2 || len(f.Blocks) == 0 {
+			return
+		}
+		seen[f] = true
+		for _, a := range f.AnonFuncs {
+			scan(a, depth)
+		}
+		allInstrs(f, func(in ssa.Instruction) {
+			cc := callCommon(in)
+			if cc == nil || cc.IsInvoke() {
+				return
+			}
+			if cc.StaticCallee() != nil {
+				if g := origin(cc.StaticCallee()); g.Pkg != nil && g.Pkg == origin(d).Pkg {
+					scan(g, depth+1)
+				}
+				return
+			}
+			if isFuncOfCall(cc.Value) {
+				if fv := fieldOf(cc.Value); fv != nil && stripLoad(cc.Value) != cc.Value {
+					fld = fv
+				}
+			}
+		})
+	}
+	scan(d, 0)
+	if fld == nil {
+		return nil
+	}
+	var target *ssa.Function
+	ok, n := true, 0
+	record := func(v ssa.Value) {
+		n++
+		t := finisherTarget(v)
+		if t == nil || (target != nil && t != target) {
+			ok = false
+		}
+		target = t
+	}
+	for _, f := range cx.P.ModuleFuncs() {
+		allInstrs(f, func(in ssa.Instruction) {
+			if st, isSt := in.(*ssa.Store); isSt && sameField(fieldOf(st.Addr), fld) {
+				v := st.Val
+				// a constructor parameter: follow to the constructor's call sites
+				if p, isP := v.(*ssa.Parameter); isP {
+					idx := -1
+					for i, q := range p.Parent().Params {
+						if q == p {
+							idx = i
+						}
+					}
+					for _, g := range cx.P.ModuleFuncs() {
+						allInstrs(g, func(x ssa.Instruction) {
+							if isCallTo(x, p.Parent()) {
+								if cc := callCommon(x); idx >= 0 && idx < len(cc.Args) {
+									record(cc.Args[idx])
+								}
+							}
+						})
+					}
+					return
+				}
+				record(v)
+			}
+		})
+	}
+	if !ok || n == 0 {
+		return nil
+	}
+	return target
 }
